@@ -92,6 +92,7 @@ type FuncCtx struct {
 	inlined   map[string]bool
 	callees   map[string]bool
 	entrySnap *Snapshot
+	promote   map[types.Object]bool // local array variables that are sliced: they live in the heap (see promotedVar)
 	bodyPos   token.Pos
 	curContract *FuncContract
 	loopDepth int
@@ -670,6 +671,55 @@ func (st *State) allocObject(t types.Type) string {
 		}
 	}
 	return ref
+}
+
+// Local arrays that are sliced (salt[:], cred[:32]) are promoted to the heap: the variable is bound to a slice
+// (fresh array id, offset 0, len = cap = N) marked "promoted"; indexing, slicing and element assignment go through the
+// slice, reading the variable as a whole yields a snapshot of the row (Go's by-value semantics), assigning an array
+// value to it overwrites the row.
+func (st *State) promotedVar(e ast.Expr) (Val, bool) {
+	id, ok := ast.Unparen(e).(*ast.Ident)
+	if !ok {
+		return Val{}, false
+	}
+	obj := st.info().ObjectOf(id)
+	if v, ok := st.vars[obj]; ok && v.K == KSlice && v.Sort == "promoted" {
+		v.Sort = ""
+		return v, true
+	}
+	return Val{}, false
+}
+
+func (st *State) newPromotedArray(at *types.Array, init Val) Val {
+	arr := st.allocRef()
+	et := at.Elem()
+	sl := mkSlice(types.NewSlice(et), arr, "0", sInt(at.Len()), sInt(at.Len()))
+	sl.Sort = "promoted"
+	st.writePromoted(sl, at, init)
+	return sl
+}
+
+func (st *State) writePromoted(sl Val, at *types.Array, v Val) {
+	if v.K != KArray {
+		panic(vcErr("assignment of a non-array value to a sliced local array"))
+	}
+	et := at.Elem()
+	for j, c := range flatComps(et) {
+		name := elemHeapName(et, c)
+		h := st.heapGet(name, elemSort(c))
+		st.noteWrite(name, sl.arr())
+		st.heapSet(name, elemSort(c), sStore(h, sl.arr(), v.Sub[j].S), sl.arr())
+	}
+}
+
+func (st *State) snapshotPromoted(sl Val, at *types.Array) Val {
+	et := at.Elem()
+	v := Val{K: KArray, T: at}
+	for _, c := range flatComps(et) {
+		h := st.heapGet(elemHeapName(et, c), elemSort(c))
+		v.Sub = append(v.Sub, vRaw(sSel(h, sl.arr()), "(Array Int "+c.Sort+")"))
+	}
+	return v
 }
 
 type vcErr string
